@@ -38,8 +38,9 @@ def placement_program(draw, tier):
         stmts.append(Decl("int", f"n{i + 1}", Num(v)))
         ints[f"n{i + 1}"] = v
     used_loop = used_func = False
-    big = tier == "thorough" and draw(st.integers(0, 19)) == 0
+    big = draw(st.integers(0, 15 if tier == "quick" else 9)) == 0  # > 500 entities: the solver's decomposition path
     row = 0
+    big_done = False
 
     def props_for(proto):
         if proto == "train-stop" and draw(st.booleans()):
@@ -50,10 +51,12 @@ def placement_program(draw, tier):
             return (("use_colors", Num(1)), ("always_on", Num(1)), ("color_mode", Num(1)))
         return ()
 
-    n_blocks = draw(st.integers(1, 4))
+    n_blocks = draw(st.integers(2 if big else 1, 4))
     for b in range(n_blocks):
         kind = draw(st.sampled_from(["single", "single", "loop", "nested", "func"]))
         proto, size = draw(st.sampled_from(PROTOS))
+        if big and not big_done:
+            kind, proto, size = "loop", "small-lamp", 1
         y0 = row * 8 - (16 if draw(st.booleans()) else 0)
         row += 1
         x0 = draw(st.integers(-20, 10))
@@ -69,7 +72,11 @@ def placement_program(draw, tier):
                 stmts.append(Assign(var, "enable", Bin(">", Ref("sig"), Num(b))))
         elif kind == "loop":
             used_loop = True
-            cnt = draw(st.integers(0, 6)) if not big else draw(st.integers(170, 400))
+            cnt = draw(st.integers(0, 6))
+            if big and not big_done:
+                cnt = draw(st.integers(505, 640))
+                big_done = True
+                wired = False
             step = draw(st.sampled_from([1, 2, -1]))
             a = draw(st.integers(-3, 3))
             bnd = a + cnt * step
